@@ -224,6 +224,12 @@ impl<'a> AnyCache<'a> {
     pub(crate) fn reload_untyped(self, id: SharedString, typ: Type) -> Option<Dependencies> {
         let handle = self.get_cached_untyped(&id, typ)?;
 
+        // Values that are not reloadable (eg added with `get_or_insert`) are
+        // never rewritten, even if the same key was loaded before.
+        if !handle.is_dynamic() {
+            return None;
+        }
+
         let load_asset = || (typ.inner.load)(self, id);
         let (entry, deps) = if let Some(reloader) = self.reloader() {
             records::record(reloader, load_asset)
@@ -402,7 +408,8 @@ pub(crate) trait CacheExt: Cache {
     #[cold]
     fn add_any<T: Storable>(&self, id: &str, asset: T) -> &UntypedHandle {
         let id = SharedString::from(id);
-        let entry = CacheEntry::new(asset, id, || self._has_reloader());
+        // Assets added via `get_or_insert` are never reloaded
+        let entry = CacheEntry::new(asset, id, || false);
 
         self.insert(entry)
     }
